@@ -4,6 +4,25 @@ PENDING = "not yet claimed in this revision: model/theorems under construction (
 NOT_APPLICABLE = {("C%02d" % i): PENDING for i in range(1, 21)}
 
 META = {
+    "C06": dict(
+        text="Kernel-checked over the registry model (collectors_by_id / desc_ids / dim_hashes_by_name as the code keeps them): register_fail_noop and unregister_fail_noop (a refused call returns the registry EQUAL to the one before), "
+             "regLoop_ok / register_ok_sound (an admitted collector had no descriptor id in use, agreed with every recorded dimension hash, clashed with no common label, had pairwise distinct descriptors; collector id = wrapping sum), "
+             "register_same_single_alreadyReg, unregister_ok_iff, unregister_frees. Tie: histories of register/unregister/gather over library and custom multi-descriptor collectors through the real Registry and the model; "
+             "independent Rust oracle = the admission rule of the property on structural descriptors (first offending descriptor in the collector's order decides the error kind).",
+        note="ids/dim hashes are 64-bit FNV values (structure up to collisions: C15). A refinement theorem to the abstract spec over all histories (refines_spec) is planned; today the history quantifier is covered by the per-step theorems + the differential run.",
+    ),
+    "C07": dict(
+        text="Kernel-checked over the gather model: families_sorted_strict (one family per name, strictly increasing names, for every collector iteration order, with and without prefix), complete_exactly_once (under each name exactly the samples of all collected families of that name, as a multiset), "
+             "gather_family_samples / prefix_labels_everywhere (prefix on every name, common labels at the end of every sample), no_empty_family, common_pairs_order_free (common labels independent of the label map's iteration order). "
+             "Tie: gather() of the real Registry vs the model on generated registries; each gather repeated on two fresh registries with other registration orders (fresh hash seeds); independent oracle: complete, name-sorted, samples sorted by label values, prefix+labels applied.",
+        note="Sortedness of samples under the code's comparator and full determinism over all permutations are validated by the oracle/multi-order run; their Lean theorems (samples_sorted, deterministic) are planned.",
+    ),
+    "C14": dict(
+        text="Kernel-checked: homogeneous_partial (if the collectors registered under each name are of one kind, every gathered sample carries a value of its family's declared type, for every iteration order), type_is_the_collectors_type, "
+             "C14_full_false (counter m{k=1} + gauge m{k=2}: declared type depends on iteration order and the counter reads 0 through the gauge slot; decide +kernel) = known finding K2. "
+             "Tie: reg area; the oracle inspects which value slot every gathered sample carries.",
+        note="K2 (collectors of different kinds under one name are admitted) is printed as KNOWN-FINDING and reproduced from the corpus on every run; any inhomogeneity outside that class is a violation.",
+    ),
     "C05": dict(
         text="Kernel-checked: enc_injective (the bytes fed to the hasher are equal <=> the tuples are equal position by position, for all UTF-8 tuples incl. split-shifted and empty values), "
              "same_child_iff_key (under the vector invariant, two successive get-or-create calls return the same child <=> equal keys; invariant preserved by every operation), "
